@@ -76,8 +76,23 @@ impl DataStorage {
     fn parse_and_apply_pack(&mut self, name: &str, data: &[u8]) -> Result<()> {
         let mut flag = 0;
         let mut obj_start = 0;
+        // Braces inside JSON strings must not be counted
+        let mut in_string = false;
+        let mut escaped = false;
         for (offset, c) in data.iter().enumerate() {
-            if *c == b'{' {
+            if in_string {
+                if escaped {
+                    escaped = false;
+                } else if *c == b'\\' {
+                    escaped = true;
+                } else if *c == b'"' {
+                    in_string = false;
+                }
+                continue;
+            }
+            if *c == b'"' {
+                in_string = true;
+            } else if *c == b'{' {
                 if flag == 0 {
                     obj_start = offset;
                 };
